@@ -83,6 +83,11 @@ def view_family():
         ("w@a3/w@a2", ("mm", w2b, a3), (("cmp", "<=", ("mm", w2, a2), c(2)),)),
         ("w@full/w@rev", ("mm", w4, full), (("cmp", ">=", ("mm", w4, rev), c(1)), ("cmp", "<=", ("sum", full), c(5)))),
         ("sum-even/w@odd-eq", ("sum", ev), (("cmp", "==", ("mm", w2, od), c(2)),)),
+        # the same generated NAME but different sizes: u[0:4:2] (2 elements) and u[0:4] (4 elements) are both "u[0:4]"
+        ("w@stepped/sum-range", ("mm", w2, a2), (("cmp", "<=", ("sum", ("slice", U, 0, 4, None)), c(5)),)),
+        ("sum-range-2sum-stepped", add(("bin", "-", ("sum", ("slice", U, 0, 4, None)), mul(c(2), ("sum", a2))), c(1)),
+         (("cmp", ">=", ("sum", a2), c(0.5)),)),
+        ("sum-stepped/w@range", ("sum", a3), (("cmp", ">=", ("mm", w4, ("slice", U, 0, 4, None)), c(1)),)),
     ]
     idx = 0
     for lab, obj, cons in models:
